@@ -1,5 +1,6 @@
 import enum
 import logging
+from copy import deepcopy
 from collections import OrderedDict
 from typing import Union
 
@@ -215,7 +216,7 @@ def _generate_schema_for_fields_internal(
                 default_val = default_raw() if callable(default_raw) else default_raw
                 if isinstance(default_val, enum.Enum):
                     default_val = default_val.name
-                sub_schema["default"] = default_val
+                sub_schema["default"] = deepcopy(default_val)
                 if mapped_key not in required:
                     required.append(mapped_key)
             properties[mapped_key] = sub_schema
